@@ -16,6 +16,7 @@ mod c14;
 mod c04;
 mod c06;
 mod c10;
+mod c17;
 mod common;
 mod rng;
 mod c07;
@@ -73,6 +74,7 @@ fn main() {
         "C04" => c04::run,
         "C06" => c06::run,
         "C10" => c10::run,
+        "C17" => c17::run,
         _ => { eprintln!("unknown property {}", prop); std::process::exit(2); }
     };
     let range: Vec<u64> = match only {
